@@ -51,6 +51,7 @@ ClauseProp ==
     dec_depth      |-> {"C15"},
     dec_alloc      |-> {"C05"},
     dec_time       |-> {"C05"},
+    scale_ok       |-> {"C05"},
     in_unchanged   |-> {"C16"},
     deep_accept    |-> {"C15"},
     deep_reject    |-> {"C15"},
@@ -209,6 +210,26 @@ JReject(line, prev) ==
             If(obs.dhi < 0, "rej_nowrite") \cup
             If(obs.dpre = obs.dpost, "rej_nostore") \cup
             If(prev = "" \/ prev = RejSig(obs), "rej_stable")) ]
+
+\* ---- time and memory proportional to the input (C05) -------------------------------------------
+\* One shape at growing sizes (well-formed by construction; the smallest instance of the same builder is
+\* an ordinary Decode line, checked byte by byte): every size is accepted and consumed entirely; the CPU
+\* time of the calling thread grows at most linearly - a factor 6 and a floor of 300 us absorb caches and
+\* timer granularity, a quadratic routine exceeds it by far at a size ratio of 16; allocation stays within
+\* 64 bytes per input byte.
+JScale(line) ==
+  LET obs == line.obs
+      m == Len(line.lens) IN
+  [ cls |-> "Scale/" \o line.shape \o ">" \o obs.out,
+    fail |-> If(\A i \in 1..m : obs.outs[i] = "ok" /\ obs.ns[i] = line.lens[i], "scale_ok") \cup
+             If(\A i, j \in 1..m : i < j => obs.us[j] <= MinI(MaxI(obs.us[i], 300), 10000000) * ((line.lens[j] \div line.lens[i]) + 1) * 6, "dec_time") \cup
+             If(\A i \in 1..m : obs.alloc[i] <= 64 * line.lens[i] + 1048576, "dec_alloc") ]
+
+\* the same small message decoded many times by one recycled decoder state: no single call allocates out of
+\* proportion (a sub-allocator whose blocks grow without bound shows up here)
+JRepeat(line) ==
+  [ cls |-> "Repeat>" \o line.obs.out,
+    fail |-> If(line.obs.maxalloc <= AllocBound(line.len), "dec_alloc") ]
 
 \* ---- legacy JIT controls (C17) ----------------------------------------------------
 \* Their own contract: Pretouch accepts anything and returns nil, the setters return their
